@@ -1174,6 +1174,155 @@ fn run_name_bytes(c: &mut Ctx) {
     }
 }
 
+
+/// Audit gaps (2026-09-30): the inputs the family theorems exclude, driven through the real crate.
+/// * a fraction item after a white-space item (`Spec.spaceSafe`, now part of `Spec.Unambiguous`): the
+///   fixed-width ones and a lone `%.f` still round-trip in the crate (oracle), `%S %.f .%3f` does not for a
+///   whole second (the format is ambiguous: counted, compared with the model, never a panic);
+/// * zone-aware values whose truncated wall clock at the printed offset is no instant of the range
+///   (`family_roundtrip_zoned_excluded`: IMPOSSIBLE) or whose own wall clock leaves the range (OUT_OF_RANGE);
+/// * leap representation on a second other than :59 (`leap_off_59_reads_back_normalised`).
+fn run_audit_gaps(c: &mut Ctx) {
+    // (a) fraction items after white space
+    let ok_fmts = ["%H:%M:%S %.f", "%H:%M:%S %3f", "%H:%M:%S %.3f", "%H:%M:%S %.6f", "%H:%M:%S %9f", "%I:%M:%S %.f %p", "%H:%M:%S\t%.9f"];
+    let amb_fmts = ["%H:%M:%S %.f .%3f", "%H:%M:%S %.f\t.%3f", "%H:%M:%S %.f .%f"];
+    let n = c.n(40, 400);
+    for i in 0..n {
+        let secs = c.rng.range(0, 86399) as u32;
+        let ms = if i % 3 == 0 { 0 } else { c.rng.range(0, 999) as u32 };
+        let t = NaiveTime::from_num_seconds_from_midnight_opt(secs, ms * 1_000_000).unwrap();
+        let v = Val::T(t);
+        for fmt in ok_fmts.iter().chain(amb_fmts.iter()) {
+            let text = v.format(fmt);
+            let (reply, got) = match &text {
+                Ok(Ok(s)) => {
+                    let r = parse_as("time", s, fmt);
+                    (format!("{} {}", hex(s.as_bytes()), show_parse(&r)), Some(show_parse(&r)))
+                }
+                Ok(Err(())) => ("err".to_string(), None),
+                Err(()) => ("panic".to_string(), None),
+            };
+            c.op(&format!("pf.rt time {} {}", hex(fmt.as_bytes()), v.tokens()), &reply);
+            if let Some(g) = &got {
+                c.op(&format!("pf.sp time {} {} | {}", hex(fmt.as_bytes()), v.tokens(), g), "agree");
+            }
+            let want = format!("ok {}", v.tokens());
+            if ok_fmts.contains(fmt) {
+                c.count("gap:space-fraction:unambiguous");
+                if got.as_deref() != Some(want.as_str()) {
+                    c.fail("round trip: a fraction item after white space does not read back", &format!("time fmt {:?} value {} -> {}", fmt, v.tokens(), reply));
+                }
+            } else {
+                match got.as_deref() {
+                    None => c.fail("format or parse panicked on an optional fraction before a dot", &format!("time fmt {:?} value {}", fmt, v.tokens())),
+                    Some(g) if g == want => c.count("gap:space-fraction:ambiguous:ok"),
+                    Some(g) => {
+                        // outside Spec.Unambiguous (spaceSafe): `05  .000` is read as the fraction `.000`
+                        c.count(&format!("gap:space-fraction:ambiguous:{}", &g[..g.len().min(12)].replace(' ', "_")));
+                        if ms != 0 && !fmt.ends_with(".%f") {
+                            c.fail("ambiguous optional-fraction format fails although the fraction is printed", &format!("time fmt {:?} value {} -> {}", fmt, v.tokens(), reply));
+                        }
+                    }
+                }
+            }
+        }
+    }
+    // (b) zone-aware values outside `truncate_to_precision`
+    let zf = ["%Y-%m-%d %H:%M:%S %z", "%Y-%m-%dT%H:%M:%S%.f%:z", "%s %z", "%s"];
+    let min0 = NaiveDate::MIN.and_hms_opt(0, 0, 0).unwrap();
+    let max0 = NaiveDate::MAX.and_hms_opt(23, 59, 59).unwrap();
+    let mut zs: Vec<(NaiveDateTime, i32, bool)> = vec![];
+    for k in [31, 45, 59, 89, 1771] {
+        // wall clock in range, printed offset rounds away from the instant
+        zs.push((min0, k, true));
+        zs.push((min0 + chrono::TimeDelta::seconds(c.rng.range(0, 20)), k, true));
+        zs.push((max0, -k, true));
+        zs.push((max0 - chrono::TimeDelta::seconds(c.rng.range(0, 20)), -k, true));
+    }
+    for k in [60, 3600, 7200, 86399] {
+        // own wall clock outside the range of NaiveDate
+        zs.push((max0, k, false));
+        zs.push((min0, -k, false));
+    }
+    for (utc, off, local_in_range) in zs {
+        let z = DateTime::<FixedOffset>::from_naive_utc_and_offset(utc, FixedOffset::east_opt(off).unwrap());
+        let v = Val::Z(z);
+        for fmt in zf {
+            let text = v.format(fmt);
+            let (reply, parsed) = match &text {
+                Ok(Ok(s)) => {
+                    let r = parse_as("zoned", s, fmt);
+                    (format!("{} {}", hex(s.as_bytes()), show_parse(&r)), Some(r))
+                }
+                Ok(Err(())) => ("err".to_string(), None),
+                Err(()) => ("panic".to_string(), None),
+            };
+            c.op(&format!("pf.rt zoned {} {}", hex(fmt.as_bytes()), v.tokens()), &reply);
+            if let Some(r) = &parsed {
+                c.op(&format!("pf.sp zoned {} {} | {}", hex(fmt.as_bytes()), v.tokens(), show_parse(r)), "agree");
+            }
+            match parsed {
+                None => c.fail("format or parse panicked on a boundary zone-aware value", &format!("fmt {:?} value {}", fmt, v.tokens())),
+                Some(Err(())) => c.fail("parse panicked on a boundary zone-aware value", &format!("fmt {:?} value {}", fmt, v.tokens())),
+                Some(Ok(Ok(Val::Z(z2)))) => {
+                    c.count("gap:zoned-boundary:ok");
+                    // whatever comes back must be the same instant at whole seconds (timestamp formats) or the
+                    // same wall clock (field formats); never another instant
+                    let same_instant = z2.timestamp() == z.timestamp();
+                    let same_wall = local_in_range && guard(|| z2.naive_local().and_utc().timestamp() == z.naive_local().and_utc().timestamp()).unwrap_or(false);
+                    if !(same_instant || same_wall) {
+                        c.fail("a boundary zone-aware value reads back as a different instant and wall clock", &format!("fmt {:?} value {} -> {}", fmt, v.tokens(), reply));
+                    }
+                }
+                Some(Ok(Ok(_))) => unreachable!(),
+                Some(Ok(Err(e))) => {
+                    let k = err_kind(&e);
+                    c.count(&format!("gap:zoned-boundary:{}:{}", if local_in_range { "rounded-offset" } else { "wall-clock-out-of-range" }, k));
+                    // field formats with the wall clock in range: the theorem says IMPOSSIBLE
+                    if local_in_range && !fmt.starts_with("%s") && k != "Impossible" {
+                        c.fail("excluded zone-aware value: the reader does not answer IMPOSSIBLE", &format!("fmt {:?} value {} -> {}", fmt, v.tokens(), reply));
+                    }
+                }
+            }
+        }
+    }
+    // (c) leap representation off second :59
+    let n = c.n(40, 400);
+    for _ in 0..n {
+        let mut secs = c.rng.range(0, 86398) as u32;
+        if secs % 60 == 59 {
+            secs -= 1;
+        }
+        let sub = *c.rng.pick(&[0u32, 1, 500_000_000, 999_999_999, 123_000_000]);
+        let t0 = NaiveTime::from_num_seconds_from_midnight_opt(secs, 0).unwrap();
+        let t = match t0.with_nanosecond(1_000_000_000 + sub) {
+            Some(t) => t,
+            None => continue,
+        };
+        let v = Val::T(t);
+        for (fmt, keep) in [("%H:%M:%S%.f", true), ("%H:%M:%S", false), ("%I:%M:%S%.9f %p", true), ("%H:%M", false)] {
+            let text = v.format(fmt);
+            let (reply, got) = match &text {
+                Ok(Ok(s)) => {
+                    let r = parse_as("time", s, fmt);
+                    (format!("{} {}", hex(s.as_bytes()), show_parse(&r)), Some(show_parse(&r)))
+                }
+                Ok(Err(())) => ("err".to_string(), None),
+                Err(()) => ("panic".to_string(), None),
+            };
+            c.op(&format!("pf.rt time {} {}", hex(fmt.as_bytes()), v.tokens()), &reply);
+            // the text is that of the normalised time one second later; that time (cut to the printed
+            // precision) is what comes back
+            let ns = secs + 1;
+            let want = if fmt == "%H:%M" { format!("ok {} 0", ns / 60 * 60) } else { format!("ok {} {}", ns, if keep { sub } else { 0 }) };
+            c.count("gap:leap-off-59");
+            if got.as_deref() != Some(want.as_str()) {
+                c.fail("leap representation off :59 does not read back as the normalised time", &format!("time fmt {:?} value {} -> {} want [{}]", fmt, v.tokens(), reply, want));
+            }
+        }
+    }
+}
+
 pub fn run(c: &mut Ctx) {
     crate::aliases::c13(c);
     run_name_bytes(c);
@@ -1181,5 +1330,6 @@ pub fn run(c: &mut Ctx) {
     run_family(c);
     run_outside_family(c);
     run_entry_points(c);
+    run_audit_gaps(c);
     run_stage1(c);
 }
